@@ -77,6 +77,11 @@ func genConnConc(r *Rng, tier string, p *Plan) *Plan {
 	fresh := ""
 	if r.Chance(0.3) {
 		fresh = Pick(r, []string{"7", "8", "11"})
+		if r.Bool() {
+			// directed: the first connection is held between two of its store-lock acquisitions while the others
+			// select the new database and write there
+			p.Knobs["holdk"] = int64(r.Range(1, 3))
+		}
 	}
 	for c := 0; c < nclients; c++ {
 		p.Knobs[fmt.Sprintf("cdb%d", c)] = int64(r.Intn(len(connDBs)))
